@@ -19,6 +19,8 @@ def date(c, r):
         "wrongsep": r.choice(["2025/01/01T10:30:00Z", "2025-01-01T10.30.00Z"]), "missing_field": r.choice(["2025-01-01T10:30Z", "2025-01T10:30:00Z"]),
         "extra_field": r.choice(["2025-01-01T10:30:00:00Z", "2025-01-01-01T10:30:00Z", "2025-01-01T10:30:00.5Z", "2025-01-01T10:30:00+00:00Z"]),
         "empty": "",
+        "tz_offset": r.choice(["2025-01-01T10:30:00+0100", "2025-01-01T10:30:00-05:00", "2025-01-01T10:30:00+0000", "2025-01-01T10:30:00+00:00", "2025-01-01T10:30:00UTC",
+                               "2025-01-01T10:30:00GMT", "2025-01-01T10:30:00-0000"]),
         "unpadded": r.choice(["2025-1-1T10:30:00Z", "2025-01-01T1:3:0Z"]), "lower_tz": r.choice(["2025-01-01t10:30:00z", "2025-01-01T10:30:00z"]),
         "nonascii_digits": "٢٠٢٥-٠١-٠١T١٠:٣٠:٠٠Z",
         "feb30": r.choice(["2025-02-30T10:30:00Z", "2031-04-31T00:00:00Z", "2031-02-29T12:00:00Z", "1900-02-29T00:00:00Z"]),
